@@ -527,7 +527,9 @@ def finish(ctx, level="model_checking", rule="", exhaustive=False):
             continue
         printed.add(key)
         print("KNOWN-FINDING: property=%s %s" % (k["property"], k["description"]))
-    for v in ctx.violations:
+    # contradictions of the property under check first; what the same executions show about other
+    # properties is reported after them, under its own id
+    for v in sorted(ctx.violations, key=lambda v: v["prop"] != ctx.prop):
         print("VIOLATION property=%s replay=%s" % (v["prop"], v["replay"]))
         print("  " + v["what"][:1500])
     write_evidence(ctx, level, rule, exhaustive=exhaustive)
